@@ -364,3 +364,80 @@ def register(op):
         del r1, r2, objs
         fresh()
         return res
+
+    @op("c11_caller_args")
+    def _(arg):
+        """A reaction keeps the multisets it was made from, whatever the caller does with HIS argument containers afterwards.
+        The first request passes caller-owned containers of the given forms (list, list subclass, deque, tuple); then the
+        caller's containers are edited step by step (buffer re-use: clear, refill, append, pop, reverse, replace, sort, possibly
+        requesting further reactions from the edited buffers).  Right after the first request and after every step the reaction
+        must list exactly the members of the first request, in canonical order, with the same name, canonical form and arity;
+        the request must have left the caller's containers as they were; and the original members, requested again (as
+        reversed tuples), are the same object.
+        arg = [kind, specs, re, pr, rtype, name, k, [form_re, form_pr], steps]
+          kind "c": reaction over complexes, "m": reaction over macrostates (specs as in c11_reaction)
+          step = [target 0|1, action, param]   (param: an index into the population, or a list of indices)"""
+        import collections
+        kind, specs, re, pr, rtype, name, k, forms, steps = arg
+        fresh()
+        class Sub(list): pass
+        if kind == "c":
+            objs = [cplx(s, name=f"X{i}") for i, s in enumerate(specs)]
+        else:
+            objs = []
+            for i, spec in enumerate(specs):
+                cs = [cplx(s, name=f"X{i}_{j}") for j, s in enumerate(spec[0])]
+                objs.append(MAC[spec[1]](cs, name=cs[spec[2]].name) if len(spec) > 2 and spec[2] is not None else MAC[spec[1]](cs))
+        orig = [[objs[i] for i in re], [objs[i] for i in pr]]
+        mk = {"sublist": Sub, "deque": collections.deque}
+        bufs = [mk.get(forms[j], list)(orig[j]) for j in (0, 1)]
+        # what the caller hands over: his own container object, or a tuple of it
+        passed = lambda j: tuple(bufs[j]) if forms[j] == "tuple" else bufs[j]
+        request = lambda: RXN[k](passed(0), passed(1), rtype, name=name)
+        ck = lambda o: o.canonical_form
+        observe = lambda o: [o.name, rkey(o, kind), [[x.name for x in o.reactants], [x.name for x in o.products]],
+                             list(o.arity), o.rtype]
+        first = request()
+        obs0 = observe(first)
+        problems = []
+        # (1) right after the first request: the members of the request, in canonical order, and their numbers
+        want_members = [[x.name for x in sorted(orig[j], key=ck)] for j in (0, 1)]
+        if obs0[2] != want_members:
+            problems.append([-1, None, "members", obs0[2], want_members])
+        if obs0[3] != [len(orig[0]), len(orig[1])]:
+            problems.append([-1, None, "size", obs0[3], [len(orig[0]), len(orig[1])]])
+        # (2) the caller's containers are his: same elements, same order as before the request
+        for j in (0, 1):
+            if len(bufs[j]) != len(orig[j]) or any(x is not y for x, y in zip(bufs[j], orig[j])):
+                problems.append([-1, None, "caller-container-changed", [x.name for x in bufs[j]], [x.name for x in orig[j]]])
+        # (3) the caller goes on using his containers
+        keep = []
+        for n, (t, action, param) in enumerate(steps):
+            b = bufs[t]
+            try:
+                if action == "clear": b.clear()
+                elif action == "append": b.append(objs[param])
+                elif action == "pop": b.pop()
+                elif action == "pop0": del b[0]
+                elif action == "reverse": b.reverse()
+                elif action == "replace": b[param[0] % len(b)] = objs[param[1]]
+                elif action == "refill": b.clear(); b.extend(objs[i] for i in param)
+                elif action == "sort-desc": b.sort(key=ck, reverse=True)
+                elif action == "request": keep.append(request())
+            except Exception:
+                pass                        # an empty buffer, a container without sort(), a refused further request: not the subject
+            now = observe(first)
+            if now != obs0:
+                problems.append([n, [t, action, param], "changed-after-caller-edit", now, obs0])
+                break
+        # (4) the original members again, other container kind and order: the very same object
+        try:
+            again = RXN[k](tuple(reversed(orig[0])), tuple(reversed(orig[1])), rtype, name=name)
+        except bc.SingletonError as e:
+            again = e.existing
+        if again is not first:
+            problems.append([len(steps), None, "original-members-no-longer-this-object", None, None])
+        res = [obs0, want_members, problems]
+        del first, again, keep, objs, orig, bufs
+        fresh()
+        return res
